@@ -641,7 +641,7 @@ theorem manyLoop_refines (R : Refines O good abs) (sss : Bool) (h : Handle) (u :
           · exact ih _ _ s1 hg1
 
 theorem manyrows_refines (R : Refines O good abs) (sss : Bool) (yp : Option Nat) (h : Handle)
-    (num : Option Nat) (s : σ) (hg : good s) (hnum : num ≠ some 0) (hyp : yp ≠ some 0) :
+    (num : Option Nat) (s : σ) (hg : good s) (hn : effSize num yp ≠ some 0) :
     manyrows Plain.ops sss yp h num (abs s) =
       ((manyrows O sss yp h num s).1, (manyrows O sss yp h num s).2.1,
         abs (manyrows O sss yp h num s).2.2) ∧
@@ -651,10 +651,6 @@ theorem manyrows_refines (R : Refines O good abs) (sss : Bool) (yp : Option Nat)
   cases huq : h.uq with
   | none =>
     simp only
-    have hn : effSize num yp ≠ some 0 := by
-      cases num with
-      | none => exact hyp
-      | some n => exact hnum
     have hp := R.fetchmany' _ s hg hn
     rw [hp.1]
     rcases hx : O.fetchmany (effSize num yp) s with ⟨o, s1⟩
@@ -725,7 +721,7 @@ theorem allrows_refines (R : Refines O good abs) (sss : Bool) (h : Handle) (s : 
       split <;> simp [hg1]
 
 theorem partLoop_refines (R : Refines O good abs) (sss : Bool) (yp num : Option Nat)
-    (hnum : num ≠ some 0) (hyp : yp ≠ some 0) :
+    (hn : effSize num yp ≠ some 0) :
     ∀ (k : Nat) (h : Handle) (s : σ), good s →
       partLoop Plain.ops sss yp num k h (abs s) =
         ((partLoop O sss yp num k h s).1, (partLoop O sss yp num k h s).2.1,
@@ -737,7 +733,7 @@ theorem partLoop_refines (R : Refines O good abs) (sss : Bool) (yp num : Option 
   | succ k ih =>
     intro h s hg
     simp only [partLoop]
-    have hm := manyrows_refines R sss yp h num s hg hnum hyp
+    have hm := manyrows_refines R sss yp h num s hg hn
     rw [hm.1]
     rcases hx : manyrows O sss yp h num s with ⟨o, h1, s1⟩
     rw [hx] at hm
@@ -974,7 +970,8 @@ theorem step_refines (R : Refines O good abs) (st : St σ) (op : Op) (hg : good 
     | ok r => cases r <;> exact ⟨by simp, hgs.1, hgs.2⟩
   | fetchmany t n =>
     have hn : n ≠ some 0 := by simpa [Op.sized] using hs
-    have h := manyrows_refines R st.sss st.yp (getH st t) n st.src hg hn hyp
+    have heff : effSize n st.yp ≠ some 0 := by cases n <;> simp_all [effSize]
+    have h := manyrows_refines R st.sss st.yp (getH st t) n st.src hg heff
     simp only [step, getH_absSt]
     rw [show (absSt abs st).src = abs st.src from rfl, show (absSt abs st).sss = st.sss from rfl,
       show (absSt abs st).yp = st.yp from rfl, h.1]
@@ -1003,7 +1000,8 @@ theorem step_refines (R : Refines O good abs) (st : St σ) (op : Op) (hg : good 
     cases o <;> exact ⟨by simp, hgs.1, hgs.2⟩
   | partitions t n k =>
     have hn : n ≠ some 0 := by simpa [Op.sized] using hs
-    have h := partLoop_refines R st.sss st.yp n hn hyp k (getH st t) st.src hg
+    have heff : effSize n st.yp ≠ some 0 := by cases n <;> simp_all [effSize]
+    have h := partLoop_refines R st.sss st.yp n heff k (getH st t) st.src hg
     simp only [step, getH_absSt]
     rw [show (absSt abs st).src = abs st.src from rfl, show (absSt abs st).sss = st.sss from rfl,
       show (absSt abs st).yp = st.yp from rfl, h.1]
